@@ -62,3 +62,74 @@ def plan_c11(tier, seed):
         S("c11_preview_alias", "0x41 decodes exactly like 0x0A on a CredentialManagement template with symbolic contents (quick tier: see the 0x41 instances of C01)", tiers=(T,), timeout=1800, sym=34),
         S("c11_deserialize_empty", "empty message => InvalidCbor"),
     ]
+
+
+# ---------------------------------------------------------------------------------- C01
+def opt_fields(schema):
+    return [f.rust for f in schema.fields if not f.required and not f.private]
+
+
+@register("C01", "g01", {
+    "functions": ["ctap_types::ctap2::Request::deserialize", "serde-indexed DeserializeIndexed expansions of the five request structs",
+                  "serde derive expansions of the nested webauthn/ctap2 types", "cbor_smol::de::*", "cosey RawPublicKey::deserialize",
+                  "webauthn::deserialize_from_str_and_truncate / _skip_if_too_long", "FilteredPublicKeyCredentialParameters::deserialize",
+                  "AttestationFormatsPreference::deserialize"],
+})
+def plan_c01(tier, seed):
+    from .gen_req import decode_harness, nested_harness
+    from .types import Variation
+    from . import spec
+    hs = []
+    metas = []
+
+    def add(h, configs="all"):
+        hs.append(h)
+        metas.append(G(h, configs))
+
+    thorough = tier == T
+    for cmd, tag in ((0x0C, "lb"), (0x06, "cp"), (0x0A, "cm"), (0x41, "cmpre"), (0x02, "ga"), (0x01, "mc")):
+        schema, variant = spec.REQUESTS[cmd]
+        opts = opt_fields(schema)
+        # whole message through Request::deserialize: no optional parameter / all of them.
+        # Integers are small constants here (a symbolic integer in the middle of a large
+        # template makes CBMC lose the decoder position, DESIGN.md section 2); their classes are
+        # covered by the single-parameter instances below.
+        for mname, pres in (("none", []), ("full", opts)):
+            var = Variation(present={schema.name: pres}, default_present="all", intclass=0, seed=seed)
+            add(decode_harness("c01_%s_%s" % (tag, mname), "C01", cmd, var,
+                               "%s (0x%02x) through Request::deserialize, optional parameters: %s; all bytes/text contents symbolic"
+                               % (variant, cmd, ",".join(pres) or "none"), via="request", timeout=1500))
+        if cmd == 0x41:
+            continue
+        classes = (1, 2, 4) if thorough else ((2,) if seed % 2 == 0 else (4,))
+        for o in opts:
+            f = schema.field(o)
+            is_int = f.ty.name in ("u8", "u32")
+            for cls in (classes if is_int else classes[:1]):
+                var = Variation(present={schema.name: [o]}, default_present="all", intclass=cls, seed=seed)
+                add(decode_harness("c01_%s_only_%s_c%d" % (tag, o, cls), "C01", cmd, var,
+                                   "%s parameter map with only optional parameter %s (its nested members all present); "
+                                   "integers symbolic over the whole %d-byte-argument head class" % (variant, o, cls),
+                                   via="direct", timeout=1500), configs="all" if thorough else "rich")
+        if thorough:
+            # adjacent pairs of optional parameters (a value landing in its neighbour)
+            for a, b in zip(opts, opts[1:]):
+                var = Variation(present={schema.name: [a, b]}, default_present="none", intclass=0, seed=seed)
+                add(decode_harness("c01_%s_pair_%s__%s" % (tag, a, b), "C01", cmd, var,
+                                   "%s with optional parameters %s and %s only (nested optional members absent)" % (variant, a, b),
+                                   via="direct", timeout=1500), configs="rich")
+    for schema in (spec.RP, spec.USER, spec.AUTH_OPTIONS, spec.MC_EXT, spec.GA_EXT_IN, spec.CM_PARAMS, spec.HMAC_INPUT,
+                   spec.DESC_REF):
+        opts = opt_fields(schema)
+        sets = [("none", [])] + [("only_" + o, [o]) for o in opts]
+        if thorough and len(opts) > 1:
+            sets.append(("full", opts))
+        for mname, pres in sets:
+            for flip in ((0, 1) if thorough else (seed % 2,)):
+                var = Variation(present={schema.name: pres}, default_present="all", intclass=1, seed=seed, boolflip=flip)
+                add(nested_harness("c01_n_%s_%s_f%d" % (schema.name, mname, flip), "C01", schema, var,
+                                   "stand-alone %s with optional members: %s" % (schema.name, ",".join(pres) or "none")),
+                    configs="all" if thorough else "rich")
+    # rp: legacy alias `url` for `icon`
+    write_gen("C01", hs)
+    return metas
